@@ -22,11 +22,13 @@ META = {
             "no directory / early exit: --help --version --list --describe) x --max-workers <= 0 x non-integer path:line x directory "
             "exists x SARIF (none|one|two of one tool|missing|malformed: bad JSON, no runs, a directory) x missing file per result option "
             "(sonar issues, hotspots, defectdojo, contrast) x AI env (unset / both empty / exactly one of key, endpoint for Azure OpenAI or Llama) x "
-            "--output (none / writable / missing parent / a directory / parent is a file / read-only place); single deviations from the "
+            "--output (none / writable / missing parent / a directory / parent is a file / read-only place / /dev/full / write failing half-way by injection); single deviations from the "
             "nominal run exhaustively, then pairs and random combinations; each realised by a real CLI run; non-trivial = not the nominal world",
     "trusted": [
         "argparse decides which argument vectors are refused (oracle: the harness builds one vector per class and observes the status)",
-        "a traceback on stderr with status 1 is how an uncaught exception shows (CPython)",
+        "sys.excepthook (wrapped from the harness) is reached exactly by the exceptions that escape main(); status 1 then (CPython)",
+        "the partial write is a fault injected from the harness: inside codemodder.codetf, open() of the --output path returns a file "
+        "object whose write() stores half of the text and raises OSError(ENOSPC)",
         "the file system of the scratch directory (missing parent, directory, /proc) makes open(..., 'w') fail as intended",
     ],
     "assumptions": [
@@ -38,9 +40,9 @@ META = {
 IMPORTS = "From CM Require Import Harness.RunBase Harness.C20_run Model.Exit Spec.ExitSpec Proofs.ExitFacts.\n"
 
 FIELDS = ["argparse", "bad_workers", "bad_line", "dir_exists", "sarif", "miss_issues", "miss_hotspots", "miss_dd", "miss_contrast",
-          "ai_consistent", "output", "write_ok"]
+          "ai_consistent", "output", "write_ok", "write_partial"]
 NOMINAL = dict(argparse=0, bad_workers=0, bad_line=0, dir_exists=1, sarif=0, miss_issues=0, miss_hotspots=0, miss_dd=0, miss_contrast=0,
-               ai_consistent=1, output=1, write_ok=1)
+               ai_consistent=1, output=1, write_ok=1, write_partial=0)
 DOMAIN = dict(argparse=[0, 1, 2], sarif=[0, 1, 2, 3])
 
 TINY = {"a.py": "x = set([1, 2])\n"}
@@ -64,24 +66,33 @@ def deviations(w):
     return [f for f in FIELDS if w[f] != NOMINAL[f]]
 
 
-def classify(w, obs):
-    """finding class of a (world, observation) that deviates from the documented status"""
+SARIF_EXC = ("JSONDecodeError", "KeyError", "IsADirectoryError", "UnicodeDecodeError", "TypeError")
+
+
+def classify(w, obs, err, attrib):
+    """finding class of a (world, observation) that deviates from the documented status — decided by what was OBSERVED
+    (exception text; or: the status/report are exactly the documented ones of the same world without the unvalidated
+    argument value, as evaluated in Coq: `attrib`), never by the shape of the input alone"""
     d = set(deviations(w))
     rc, tb, rep = obs
-    if w["argparse"] == 0:
-        # argument values that argparse lets through: an exception escapes later, or a later condition's status is returned
-        if w["bad_line"]:
-            return "kf_exit_noninteger_line_unvalidated"
-        if w["bad_workers"]:
-            return "kf_exit_nonpositive_max_workers_unvalidated"
-        if w["sarif"] == 3 and tb:
-            return "kf_exit_crash_malformed_sarif"
-        if w["miss_contrast"] and not (d & {"dir_exists", "miss_issues", "miss_hotspots", "miss_dd"}) and w["sarif"] == 0 and rc != 1:
-            return "kf_exit_contrast_file_unchecked"
-        if w["output"] and not w["write_ok"] and rc == 0 and not rep:
-            return "kf_exit_report_status_dropped"
     if tb:
-        return "kf_exit_crash_other"
+        exc = (re.findall(r"@@UNCAUGHT@@ (\S+)", err) or ["?"])[-1]
+        if attrib["crash_reached"]:
+            if w["bad_line"] and exc == "ValueError" and "invalid literal for int()" in err:
+                return "kf_exit_noninteger_line_unvalidated"
+            if w["bad_workers"] and exc == "ValueError" and "max_workers must be greater than 0" in err:
+                return "kf_exit_nonpositive_max_workers_unvalidated"
+            if w["sarif"] == 3 and exc in SARIF_EXC and ("sarifs.py" in err or "detect_sarif_tools" in err):
+                return "kf_exit_crash_malformed_sarif"
+        return f"kf_exit_crash_other_{exc}"
+    if attrib["attrib_line_ok"]:
+        return "kf_exit_noninteger_line_unvalidated"
+    if attrib["attrib_workers_ok"]:
+        return "kf_exit_nonpositive_max_workers_unvalidated"
+    if attrib["attrib_contrast_ok"]:
+        return "kf_exit_contrast_file_unchecked"
+    if attrib["attrib_write_dropped_ok"]:
+        return "kf_exit_report_status_dropped"
     return "kf_exit_status_" + ("+".join(sorted(d)) or "nominal")
 
 
@@ -117,6 +128,8 @@ class Realiser:
         core.write_tree(proj, TINY)
         label = []
         target = str(proj) if w["dir_exists"] else str(d / "no_such_dir")
+        if not w["dir_exists"]:
+            label.append("target directory missing")
         argv = [target] + TRIVIAL
         env = {}
         for k in ("CODEMODDER_AZURE_OPENAI_API_KEY", "CODEMODDER_AZURE_OPENAI_ENDPOINT", "CODEMODDER_AZURE_LLAMA_API_KEY",
@@ -165,11 +178,16 @@ class Realiser:
             label.append(f"only {k} set")
         # output
         out = None
+        inject = None
         if w["output"]:
             if w["write_ok"]:
                 out = d / "report.codetf.json"
+            elif w["write_partial"]:
+                out = d / "report.codetf.json"
+                inject = str(out)
+                label.append("--output: open succeeds, write fails half-way (injected ENOSPC)")
             else:
-                kind = variant or rng.choice(["missing_parent", "is_directory", "parent_is_file", "readonly"])
+                kind = variant if variant in UNWRITABLE else rng.choice(UNWRITABLE)
                 if kind == "missing_parent":
                     out = d / "no" / "such" / "dir" / "report.json"
                 elif kind == "is_directory":
@@ -177,6 +195,8 @@ class Realiser:
                     out.mkdir(parents=True)
                 elif kind == "parent_is_file":
                     out = self.shared / "afile.txt" / "report.json"
+                elif kind == "dev_full":
+                    out = Path("/dev/full")      # open succeeds, every write fails, nothing is kept
                 else:
                     if os.geteuid() == 0:
                         out = Path("/proc") / f"verif-c20-{os.getpid()}-{self.n}.json"   # read-only place even for root
@@ -191,7 +211,7 @@ class Realiser:
         if rng.random() < 0.4:
             argv += rng.choice([["--dry-run"], ["--verbose"], ["--no-dry-run"], ["--log-format", "json"], ["--project-name", "p"],
                                 ["--codemod-include", "pixee:python/use-set-literal"], ["--output-format", "codetf"],
-                                ["--path-include", "*.py", "--path-include", "a.py"]])
+                                ["--path-include", "*.py", "--path-include", "a.py"]][:7 if w["bad_line"] else 8])   # a repeated option replaces the earlier value
         # argparse outcome
         if w["argparse"] == 1:
             kind = variant if variant in PARSE_ERRORS else rng.choice(list(PARSE_ERRORS))
@@ -201,7 +221,10 @@ class Realiser:
             flag = variant if variant in ("--help", "--version", "--list", "--describe", "-h") else rng.choice(["--help", "--version", "--list", "--describe", "-h"])
             argv = [flag] + (argv if rng.random() < 0.6 else [])
             label.append(flag)
-        return {"argv": argv, "env": env, "out": out, "label": "; ".join(label) or "nominal", "dir": d}
+        return {"argv": argv, "env": env, "out": out, "label": "; ".join(label) or "nominal", "dir": d, "inject": inject}
+
+
+UNWRITABLE = ["missing_parent", "is_directory", "parent_is_file", "readonly", "dev_full"]
 
 
 class _First:
@@ -258,17 +281,42 @@ PRELOAD = ("import sys\n_verif_hook = sys.excepthook\n"
            "sys.excepthook = _verif_uncaught\n")
 
 
+PRELOAD_PARTIAL = """
+import errno as _errno, builtins as _bi, codemodder.codetf as _codetf
+_VERIF_TARGET = %r
+class _VerifHalf:
+    def __init__(self, f): self.f = f
+    def write(self, data):
+        self.f.write(data[:max(1, len(data) // 2)]); self.f.flush()
+        raise OSError(_errno.ENOSPC, "No space left on device (injected by the verification harness)")
+    def __enter__(self): return self
+    def __exit__(self, *a): self.f.close(); return False
+def _verif_open(path, mode="r", *a, **k):
+    f = _bi.open(path, mode, *a, **k)
+    return _VerifHalf(f) if (str(path) == _VERIF_TARGET and "w" in mode) else f
+_codetf.open = _verif_open
+"""
+
+
+def output_state(out):
+    """0 nothing (no regular file at the path) / 1 a regular file that is not a complete JSON document / 2 a complete JSON document"""
+    if out is None or not out.is_file():
+        return 0
+    try:
+        return 2 if isinstance(json.loads(out.read_text()), dict) else 1
+    except Exception:
+        return 1
+
+
 def run_one(job):
-    r = core.run_cli(job["argv"], cwd=str(job["dir"]), env=job["env"], timeout=300, preload=PRELOAD)
+    preload = PRELOAD + (PRELOAD_PARTIAL % job["inject"] if job.get("inject") else "")
+    r = core.run_cli(job["argv"], cwd=str(job["dir"]), env=job["env"], timeout=300, preload=preload)
     tb = "@@UNCAUGHT@@" in r["stderr"]
-    out = job["out"]
-    rep = False
-    if out is not None:
-        try:
-            rep = out.is_file() and isinstance(json.loads(out.read_text()), dict)
-        except Exception:
-            rep = False
-    return r["rc"], tb, rep, r["stderr"][-600:]
+    rep = output_state(job["out"])
+    if r["rc"] == -9:
+        return None, tb, rep, "TIMEOUT"
+    exc = (re.findall(r"@@UNCAUGHT@@ (\S+)", r["stderr"]) or ["?"])[-1]
+    return r["rc"], tb, rep, (f"@@UNCAUGHT@@ {exc}\n" if tb else "") + r["stderr"][-1500:]
 
 
 def gen_worlds(ctx):
@@ -276,7 +324,7 @@ def gen_worlds(ctx):
     worlds = []
     for f in sorted((core.VERIF / "corpus" / "C20").glob("*.json")):
         b = json.loads(f.read_text())
-        worlds.append((b.get("label", "corpus:" + f.stem), b["world"], b.get("variant")))
+        worlds.append((b.get("label", "corpus:" + f.stem), dict(NOMINAL, **b["world"]), b.get("variant")))
     worlds.append(("nominal", dict(NOMINAL), None))
     # every single deviation from the nominal run, every realisation variant of the classes that have several
     for f in FIELDS:
@@ -292,8 +340,13 @@ def gen_worlds(ctx):
                 for k in ("--help", "--version", "--list", "--describe"):
                     worlds.append((f"single:early:{k}", dict(w), k))
             elif f == "write_ok":
-                for k in ("missing_parent", "is_directory", "parent_is_file", "readonly"):
+                for k in UNWRITABLE:
                     worlds.append((f"single:unwritable:{k}", dict(w), k))
+                wp = dict(w)
+                wp["write_partial"] = 1
+                worlds.append(("single:write_partial", wp, None))
+            elif f == "write_partial":
+                continue    # only meaningful together with write_ok = 0 (above)
             else:
                 worlds.append((f"single:{f}={v}", w, None))
     # pairs that decide the ORDER of the chain (first applicable condition), then random combinations
@@ -301,7 +354,8 @@ def gen_worlds(ctx):
                    ("sarif", 1, "ai_consistent", 0), ("ai_consistent", 0, "write_ok", 0), ("miss_dd", 1, "write_ok", 0),
                    ("dir_exists", 0, "sarif", 3), ("sarif", 2, "miss_hotspots", 1), ("argparse", 2, "dir_exists", 0),
                    ("argparse", 1, "ai_consistent", 0), ("bad_workers", 1, "dir_exists", 0), ("miss_contrast", 1, "ai_consistent", 0),
-                   ("miss_contrast", 1, "write_ok", 0), ("bad_line", 1, "write_ok", 0), ("output", 0, "ai_consistent", 0)]
+                   ("miss_contrast", 1, "write_ok", 0), ("bad_line", 1, "write_ok", 0), ("output", 0, "ai_consistent", 0),
+                   ("write_ok", 0, "write_partial", 1), ("bad_line", 1, "dir_exists", 0), ("bad_line", 1, "miss_issues", 1)]
     for a, va, b, vb in order_pairs:
         w = dict(NOMINAL)
         w[a], w[b] = va, vb
@@ -374,49 +428,68 @@ def run(ctx: core.Ctx):
     with ThreadPoolExecutor(max_workers=min(12, core.NCPU)) as ex:
         obs = list(ex.map(run_one, jobs))
     ctx.cli_runs += len(jobs)
+    # a run that did not finish is lost coverage: the tie is broken, it is not a verdict about the implementation
+    kept = []
+    for j, o in zip(jobs, obs):
+        if o[0] is None:
+            ctx.mismatch("console entry point did not finish within the time limit", f"[{j['label']}] {j['argv'][:6]}", {"argv": j["argv"]})
+        else:
+            kept.append((j, o))
+    jobs, obs = [k[0] for k in kept], [k[1] for k in kept]
     cases = []
     for j, (rc, tb, rep, err) in zip(jobs, obs):
         w = j["world"]
-        cases.append(cpair(c_world(w), cZ(rc), cbool(tb), cbool(rep)))
+        cases.append(cpair(c_world(w), cZ(rc), cbool(tb), cN(rep)))
         ctx.count("origin:" + j["origin"].split(":")[0])
-        ctx.count(f"status:{rc}{'+traceback' if tb else ''}")
+        ctx.count(f"status:{rc}{'+escaped-exception' if tb else ''}")
+        ctx.count(f"output_path_after:{['nothing', 'incomplete file', 'complete report'][rep]}")
         for f in deviations(w):
             ctx.count(f"deviation:{f}")
         ctx.case({"world": {f: w[f] for f in deviations(w)}, "argv": [a if len(a) < 80 else "..." + a[-60:] for a in j["argv"]],
-                  "status": rc, "traceback": tb, "report": rep},
+                  "status": rc, "escaped_exception": tb, "output_path_after": rep},
                  nontrivial_key=(tuple(code_of(w)), j["label"]) if deviations(w) else None, sample=len(deviations(w)) == 2)
+        # measured clause (independent of model and spec): a non-zero status never comes with a complete report
+        if rc != 0 and rep == 2:
+            ctx.violation("kf_exit_nonzero_with_report", f"[{j['label']}] exit status {rc} although a complete report was written to {j['out']}",
+                          {"world": w, "realisation": j["label"], "observed": {"status": rc, "output_path_after": rep}})
     bad = core.eval_bad_indices(ctx, "c20_exit", IMPORTS, "exit_case", cases, ["exit_model_ok", "exit_spec_ok"])
 
     def payload(i):
         j, (rc, tb, rep, err) = jobs[i], obs[i]
         return {"world": j["world"], "realisation": j["label"],
                 "argv": [a.replace(str(j["dir"]), "<run>").replace(str(real.shared), "<shared>") for a in j["argv"]],
-                "env": {k: v for k, v in j["env"].items() if v}, "observed": {"status": rc, "traceback": tb, "report_exists": rep},
+                "env": {k: v for k, v in j["env"].items() if v},
+                "observed": {"status": rc, "escaped_exception": tb, "output_path_after": ["nothing", "incomplete file", "complete report"][rep]},
                 "stderr_tail": err[-300:]}
     for i in bad["exit_model_ok"]:
         p = payload(i)
         model = core.eval_term(ctx, f"c20_model_{i}", IMPORTS, f"model_of_code {c_world(jobs[i]['world'])}")
         ctx.mismatch("console entry point vs Model.Exit.run_exit at the generated tables",
-                     f"[{p['realisation']}] observed {p['observed']}, model (status, report, uncaught) {model.split('=')[-1].split(':')[0].strip()[:60]}", p)
-    for i in bad["exit_spec_ok"]:
+                     f"[{p['realisation']}] observed {p['observed']}, model (status, output path state, escaped) {model.split('=')[-1].split(':')[0].strip()[:60]}", p)
+    failing = bad["exit_spec_ok"]
+    ATTRIB = ["attrib_line_ok", "attrib_workers_ok", "attrib_contrast_ok", "attrib_write_dropped_ok", "crash_reached"]
+    nok = core.eval_bad_indices(ctx, "c20_attrib", IMPORTS, "exit_case", [cases[i] for i in failing], ATTRIB) if failing else {}
+    for k, i in enumerate(failing):
         p = payload(i)
         o = obs[i]
         doc = core.eval_term(ctx, f"c20_doc_{i}", IMPORTS, f"documented_of_code {c_world(jobs[i]['world'])}")
         p["documented"] = doc.split("=")[-1].split(":")[0].strip()[:40]
-        cls = classify(jobs[i]["world"], o[:3])
-        ctx.violation(cls, f"[{p['realisation']}] exit status {o[0]}{' with a traceback' if o[1] else ''}, report "
-                           f"{'written' if o[2] else 'not written'}; documented (status, report) = {p['documented']}", p)
+        attrib = {a: (k not in nok[a]) for a in ATTRIB}
+        cls = classify(jobs[i]["world"], o[:3], o[3], attrib)
+        p["attribution"] = {a: v for a, v in attrib.items() if v}
+        ctx.violation(cls, f"[{p['realisation']}] exit status {o[0]}{' with an escaped exception' if o[1] else ''}, at the --output path: "
+                           f"{p['observed']['output_path_after']}; documented (status, complete report due) = {p['documented']}", p)
 
 
 def replay(ctx, body):
-    w = body["world"]
+    w = dict(NOMINAL, **body["world"])
     real = Realiser(ctx)
     j = real.realise(w, body.get("variant"), minimal=True)
     rc, tb, rep, err = run_one(j)
     print("world deviations from the nominal run:", {f: w[f] for f in deviations(w)})
     print("codemodder", " ".join(j["argv"]))
     print("env:", {k: v for k, v in j["env"].items() if v})
-    print(f"observed now: status={rc} traceback={tb} report_exists={rep}")
+    print(f"observed now: status={rc} escaped_exception={tb} output_path_after={['nothing', 'incomplete file', 'complete report'][rep]}")
     print("recorded    :", body.get("observed"), "| documented (status, report):", body.get("documented"))
     print(err[-400:])
     return 0
